@@ -700,7 +700,19 @@ MANIFEST = {
         "BoostMatrix/NegativeMomentum/MinkowskiMetric of a SUM of momenta, equals the explicit matrix at that argument "
         "(theorems *AddCode_eq, *MulCode_eq, *PowCode_eq, *SumCode_eq: one representative per precedence class of printed "
         "expressions, so a template that splices an argument without parentheses is caught; this is a finite sample of "
-        "argument shapes, not a theorem about all arguments). For EVERY number n of arrays "
+        "argument shapes, not a theorem about all arguments). WRAPPED MOMENTA: BoostMatrix is also regenerated "
+        "(as_explicit AND generated code, cse off/on) on momentum arguments that are expression trees — "
+        "NegativeMomentum applied twice and three times (three times: cse=True only, the cse=False source has 8 MB), "
+        "NegativeMomentum(ArraySum(p,q)), ArraySum(NegativeMomentum(p),NegativeMomentum(q)), ArraySum(p,NegativeMomentum(q)), "
+        "NegativeMomentum(ArraySum(NegativeMomentum(p),q)), and the boosted momentum ArrayMultiplication(BoostMatrix(q),p) of "
+        "compute_boost_chain; theorems boostNeg2_eq, boostNeg3_eq, boostNegSum_eq, boostSumNeg_eq, boostSumMix_eq, "
+        "boostNegMix_eq, boostChain{Ex,Code0,Code1}_eq: each equals the explicit boost matrix boostEx AT THE VALUE of the "
+        "argument (p, (E,-p), (E_p+E_q, -(p+q)), (E_p+E_q, p-q), B(q)p) on all reals; negMomNestedCode_eq, sumNegCode_eq, "
+        "negMixCode_eq, negMomSum_eq_sumNeg for the vectors themselves (inversion commutes with the sum); the inverse-boost "
+        "statement for an already inverted momentum: boostNeg2Code_inverse (code of B(N(N(p))) times code of B(N(p)) = 1), "
+        "boostNeg2Code_proper, and the single generated functions MatrixMultiplication(B(N(k)),B(k)) for k = p and "
+        "k = NegativeMomentum(p) (invPairCode_eq, invPairNegCode_eq, invPairCode_one). Again a finite sample of argument "
+        "trees, not a theorem about all arguments. For EVERY number n of arrays "
         "(induction; n <= 18 resp. 17, the alphabet limit of the source, beyond which the generated string is malformed — "
         "proved as well) the subscripts of ArrayMultiplication/MatrixMultiplication denote M1(M2(...v)) resp. M1...Mn "
         "under numpy's explicit-mode einsum semantics, over any commutative semiring and any dimension. "
@@ -722,6 +734,14 @@ MANIFEST = {
         "is filled with a sum / product / negated product / quotient / power / negated symbol and the generated code must "
         "have the value of the code for a symbol with the parenthesised expression substituted (numpy, three random "
         "draws); an unprotected hole is a broken correspondence and the oracle supplies the failing input. "
+        "For the families with wrapped momenta the translator NAMES repeated subterms (<family>_s<i>, hash-consing, no "
+        "rewriting) and the vector results of einsum / ArrayMultiplication (<family>_v<k>_<i>), otherwise the inlined "
+        "temporaries of nested arguments grow geometrically; unfolding the names gives back the original terms (the proofs do "
+        "that), and the Float twins of these families are validated like all others. The oracle's run_wrapped evaluates the "
+        "real code (cse off where the source stays below ~1 MB, cse on always) for twelve wrapped arguments A — the above plus "
+        "four inversions, N(N(p+q)), N(N(p))+q, and (thorough tier: all; quick: one) boosted momenta with an inversion before / "
+        "after / inside the inner boost — on: B(A) = textbook boost at the value of A, Lorentz condition, det, "
+        "B(A)A = (m,0,0,0), B(N(A))B(A) = 1, code = as_explicit(), code of A = value of A; wall-clock cap per argument. "
         "Real-number theorems use Lean's x/0 = 0 only in the unconditional 'code = explicit' equalities."
     ),
 }
